@@ -11,15 +11,15 @@
    T04_heap - libmy/heap.c (array heap: siftup, siftdown, push, pop, replace) keeps the heap
      order and the contents for every total preorder; the root is a least element.
    The proofs are about model/Merger.v + model/Heap.v over ideal source cursors (the contract
-   C03 proves for reader iterators).  NOT proved: the variant without a merge function (every
-   entry emitted, dupsort order), which engine mg compares with the specification along with
-   everything above, on random and directed families over real readers and over user-defined
+   C03 proves for reader iterators).  The variant without a merge function (every entry emitted, dupsort order) and the combinations
+   with a dupsort function are the T04n_* theorems at the end of this file.  Engine mg compares
+   implementation, model and specification on random and directed families over real readers and over user-defined
    sources that invalidate old buffers on every call; the mtbl_merge tool and mtbl_source_write
    are further observation paths of the engine. *)
 From Coq Require Import NArith List Lia Permutation.
 From Coq Require Import Sorting.Sorted.
 From Mtbl Require Import model.Bytes model.Order model.Heap model.Merger spec.MergeSpec proofs.OrderProofs
-  proofs.HeapProofs proofs.MergerProofs proofs.MergerClosed.
+  proofs.HeapProofs proofs.HeapifyProofs proofs.MergerProofs proofs.MergerClosed proofs.MergerGen proofs.MergerNoMerge.
 Local Open Scope N_scope.
 
 Theorem T04_merge_sources : forall (mf : bytes -> bytes -> bytes -> option bytes) (srcs : list (list entry)),
@@ -110,3 +110,103 @@ Example T04_examples :
   all_keys [[([], [1]); ([97], [2])]; [([], [4]); ([98], [5])]] = [[]; [97]; [98]] /\
   values_for [] [[([], [1]); ([97], [2])]; [([], [4]); ([98], [5])]] = [[1]; [4]].
 Proof. vm_compute. repeat split. Qed.
+
+(* C04, second clause - a merger WITHOUT merge function (mtbl_merger_options_set_merge_func not
+   called; model: mergef = None) emits EVERY entry of every source: duplicates of a key are all
+   emitted, none merged; keys in ascending order; entries with equal keys in the order of the
+   dupsort function when one is set.  PROVED for model/Merger.v over model/Heap.v, for every
+   finite family of strictly sorted sources (proofs/MergerGen.v, proofs/MergerNoMerge.v):
+   T04n_sources        - no dupsort: the drained output is a permutation of all source entries,
+                         keys ascending (non-strictly: a key comes as often as sources hold it);
+   T04n_next_call      - one call from any state between calls (the states `api` of T04_next_call):
+                         ONE entry, of least key among all that remain, leaves the remaining
+                         multiset; failure exactly when nothing remains;
+   T04n_dupsort        - with a dupsort function f that is, for every key, a total preorder on
+                         values (dupsort_ok; T04n_dupsort_hyp: exactly what makes the heap
+                         comparison a total preorder): a permutation of all source entries, sorted
+                         by key and, inside a key, by f;
+   T04n_dupsort_any    - for an ARBITRARY function f (inconsistent answers included): still a
+                         permutation of all source entries with keys ascending;
+   T04n_merge_dupsort  - merge function and dupsort together: the statement of T04_merge_sources,
+                         and the fold of the merge function takes a key's values in dupsort order;
+   T04n_merge_dupsort_any - the statement of T04_merge_sources for an ARBITRARY dupsort function;
+   T04n_heapify        - libmy heap_heapify (used by merger seek): heap order and contents, for
+                         every total preorder.
+   The order among equal keys when no dupsort function is set is whatever the heap yields (it is
+   not the order of the sources: example nomerge_examples in proofs/MergerNoMerge.v). *)
+Theorem T04n_sources : forall srcs : list (list entry), Forall ssorted srcs ->
+  exists it, merger_iter_make None (map (fun es => mksc es 0 true BAll false) srcs) false = Some it /\
+    forall n, (length (concat srcs) <= n)%nat ->
+    let out := mdrain0 None (S n) it in
+    Permutation out (concat srcs) /\
+    StronglySorted (fun a b => bcmp (fst a) (fst b) <> Gt) out.
+Proof. exact T1_nomerge_sources. Qed.
+Print Assumptions T04n_sources.
+
+Theorem T04n_next_call : forall it, api it ->
+  match merger_next None None it with
+  | (it', Some e) =>
+      In e (remaining it) /\
+      (forall x, In x (remaining it) -> bcmp (fst e) (fst x) <> Gt) /\
+      Permutation (e :: remaining it') (remaining it) /\
+      api it' /\ map sc_es (mi_srcs it') = map sc_es (mi_srcs it)
+  | (it', None) => remaining it = [] /\ api it' /\ remaining it' = []
+  end.
+Proof. exact T1_next_call. Qed.
+Print Assumptions T04n_next_call.
+
+Theorem T04n_dupsort : forall (f : bytes -> bytes -> bytes -> comparison) (srcs : list (list entry)),
+  dupsort_ok f -> Forall ssorted srcs ->
+  exists it, merger_iter_make (Some f) (map (fun es => mksc es 0 true BAll false) srcs) false = Some it /\
+    forall n, (length (concat srcs) <= n)%nat ->
+    let out := mdrain0 (Some f) (S n) it in
+    Permutation out (concat srcs) /\
+    StronglySorted (fun a b => bcmp (fst a) (fst b) = Lt \/ (fst a = fst b /\ f (fst a) (snd a) (snd b) <> Gt)) out.
+Proof. exact T2_nomerge_sources. Qed.
+Print Assumptions T04n_dupsort.
+
+Theorem T04n_dupsort_hyp : forall f, dupsort_ok f <->
+  (forall a b c, le hent (mcmp (Some f)) a b -> le hent (mcmp (Some f)) b c -> le hent (mcmp (Some f)) a c) /\
+  (forall a b, le hent (mcmp (Some f)) a b \/ le hent (mcmp (Some f)) b a).
+Proof. exact dupsort_ok_iff. Qed.
+Print Assumptions T04n_dupsort_hyp.
+
+Theorem T04n_dupsort_any : forall (f : bytes -> bytes -> bytes -> comparison) (srcs : list (list entry)),
+  Forall ssorted srcs ->
+  exists it, merger_iter_make (Some f) (map (fun es => mksc es 0 true BAll false) srcs) false = Some it /\
+    forall n, (length (concat srcs) <= n)%nat ->
+    let out := mdrain0 (Some f) (S n) it in
+    Permutation out (concat srcs) /\ StronglySorted (fun a b => bcmp (fst a) (fst b) <> Gt) out.
+Proof. exact T2_any_dupsort. Qed.
+Print Assumptions T04n_dupsort_any.
+
+Theorem T04n_merge_dupsort : forall (f : bytes -> bytes -> bytes -> comparison) (mf : bytes -> bytes -> bytes -> option bytes)
+  (srcs : list (list entry)),
+  dupsort_ok f -> Forall ssorted srcs -> (forall k a b, mf k a b <> None) ->
+  exists it, merger_iter_make (Some f) (map (fun es => mksc es 0 true BAll false) srcs) false = Some it /\
+    let out := gmdrain (Some f) mf (S (length (concat srcs))) it in
+    StronglySorted (fun a b => bcmp (fst a) (fst b) = Lt) out /\
+    (forall k, In k (map fst out) <-> In k (map fst (concat srcs))) /\
+    Forall (fun e => merged_value_ok mf srcs (fst e) (snd e)) out /\
+    Forall (fun e => exists first rest, Permutation (first :: rest) (values_for (fst e) srcs) /\
+                       StronglySorted (fun v w => f (fst e) v w <> Gt) (first :: rest) /\
+                       fold_merge mf (fst e) first rest = Some (snd e)) out.
+Proof. exact T3_merge_sources. Qed.
+Print Assumptions T04n_merge_dupsort.
+
+Theorem T04n_merge_dupsort_any : forall (f : bytes -> bytes -> bytes -> comparison) (mf : bytes -> bytes -> bytes -> option bytes)
+  (srcs : list (list entry)),
+  Forall ssorted srcs -> (forall k a b, mf k a b <> None) ->
+  exists it, merger_iter_make (Some f) (map (fun es => mksc es 0 true BAll false) srcs) false = Some it /\
+    let out := gmdrain (Some f) mf (S (length (concat srcs))) it in
+    StronglySorted (fun a b => bcmp (fst a) (fst b) = Lt) out /\
+    (forall k, In k (map fst out) <-> In k (map fst (concat srcs))) /\
+    Forall (fun e => merged_value_ok mf srcs (fst e) (snd e)) out.
+Proof. exact T3_any_dupsort. Qed.
+Print Assumptions T04n_merge_dupsort_any.
+
+Theorem T04n_heapify : forall (A : Type) (cmp : A -> A -> comparison) (dflt : A),
+  (forall a b c, le A cmp a b -> le A cmp b c -> le A cmp a c) -> (forall a b, le A cmp a b \/ le A cmp b a) ->
+  forall l, hok A cmp dflt (heapify A cmp dflt l) /\ Permutation (heapify A cmp dflt l) l.
+Proof. exact heapify_ok. Qed.
+Print Assumptions T04n_heapify.
